@@ -8,7 +8,7 @@ EnumDefineNode::EnumDefineNode(const Token &token, const Token &name, std::vecto
     : Node(token), name(name), values(std::move(values)) {}
 
 std::unique_ptr<NodeResult> EnumDefineNode::evaluate(PSC::Context &ctx) {
-    if (ctx.isIdentifierType(name, false))
+    if (ctx.isIdentifierType(name))
         throw PSC::RedefinitionError(token, ctx, name.value);
 
     PSC::EnumTypeDefinition definition(name.value, std::move(values));
